@@ -619,6 +619,39 @@ fn main() {
         }
         rep.count(&format!("product_states_{}_clients", n), if args.shard == 0 { seen.len() as u64 } else { 0 });
     }
+    if args.shard == 0 {
+        // labelled sampling (free-running OS threads, not part of the exhaustive claim): the same step of the same
+        // client id raced from 8 threads; a replayed step is out of order, so at most one of them may succeed
+        let rounds = if args.thorough() { 3000 } else { 400 };
+        let svc = std::sync::Arc::new(cert::new_service());
+        let tm = std::sync::Arc::new(templates.clone());
+        let mut bad: Option<String> = None;
+        'outer: for r in 0..rounds {
+            let (replies, _, _) = send(&svc, &tm[0]);
+            let id = replies.get(0).and_then(|x| x["parameters"]["client_id"].as_str()).unwrap_or("").to_string();
+            let barrier = std::sync::Arc::new(std::sync::Barrier::new(8));
+            let hs: Vec<_> = (0..8)
+                .map(|_| {
+                    let (svc, tm, id, b) = (svc.clone(), tm.clone(), id.clone(), barrier.clone());
+                    std::thread::spawn(move || {
+                        let req = subst(&tm[1], &id);
+                        b.wait();
+                        classify(&send(&svc, &req).0) == Class::Success(1)
+                    })
+                })
+                .collect();
+            let wins = hs.into_iter().filter_map(|h| h.join().ok()).filter(|w| *w).count();
+            rep.evaluations += 1;
+            rep.count("sampled_same_id_race_rounds", 1);
+            if wins != 1 {
+                bad = Some(format!("round {}: {} of 8 threads sending the same Test01 for one client id got the success reply (exactly one may)", r, wins));
+                break 'outer;
+            }
+        }
+        if let Some(b) = bad {
+            rep.violation("C19/replayed-step-accepted-under-race", &b, json!({"part": "same-id-race (sampling)"}));
+        }
+    }
     if args.thorough() && args.shard == 0 {
         // conformance, labelled sampling: 16 real threads run the canonical sequence concurrently against one service
         let svc = std::sync::Arc::new(cert::new_service());
